@@ -58,6 +58,8 @@ impl<'t> Worker<'t> {
         if self.sent.chars().is_empty() {
             return;
         }
+        // Discards the result of a previous call for the same sentence.
+        self.top_nodes.clear();
         self.tokenizer.build_lattice(&self.sent, &mut self.lattice);
         #[cfg(vibrato_verif)]
         crate::verif::yield_point("tokenize:built");
